@@ -529,9 +529,47 @@ def _b_sorted(interp, args, kwargs):
             raise Unsupported("sorted with key/reverse")
         return sorted_set(interp, args[0])
     seq = iter_to_vec(interp, args[0])
+    if set(kwargs) == {"key"}:
+        return sorted_by_key(interp, seq, kwargs["key"])
     if kwargs:
         raise Unsupported("sorted with key/reverse")
     return sorted_vec(interp, seq, kind="list")
+
+
+def sorted_by_key(interp, seq: Vec, key):
+    """sorted(seq, key=f) for integer keys: the result is seq rearranged by a permutation along which the keys ascend (stable order
+    among equal keys is not modelled: contracts that need it must show the keys are distinct)"""
+    ctx = interp.ctx
+    src = snapshot(seq)
+    if not hasattr(ctx, "guard_stack"):
+        ctx.guard_stack = []
+
+    def keyfn(k):
+        ctx.guard_stack.append([])
+        try:
+            depth = len(ctx.taken)
+            v = interp.call(key, [src(k)], {})
+            if len(ctx.taken) != depth:
+                raise Unsupported("branching inside a sort key")
+            return v
+        finally:
+            ctx.last_guards = ctx.guard_stack.pop()
+    pk = ctx.int("probe")
+    sample = keyfn(pk)
+    guards = list(getattr(ctx, "last_guards", []))
+    if guards:
+        ctx.oblige("safe:index-in-sort-key", "safe", z3.Implies(z3.And(pk >= 0, pk < zint(seq.length)), z3.And(*guards)))
+    if not (isinstance(sample, Num) and sample.is_int):
+        raise Unsupported("sorted with a non-integer key")
+    keys = Vec(seq.length, keyfn, kind="list", elem="int")
+    sk = sorted_vec(interp, keys, kind="list")
+    perm = getattr(sk, "perm", None)
+    if perm is None:
+        raise Unsupported("sorted with key over a short concrete sequence")
+    out = Vec(seq.length, lambda k: src(perm(zint(k))), kind="list", elem=seq.elem)
+    out.sorted_keys = sk
+    out.perm, out.perm_inv = sk.perm, sk.perm_inv
+    return out
 
 
 def sorted_vec(interp, seq: Vec, kind="list"):
@@ -1024,14 +1062,24 @@ def eval_listcomp(interp: Interp, node, frame: Frame):
             raise Unsupported("branching inside a comprehension over a symbolic-length sequence")
         return val
     pk = ctx.int("probe")
-    ctx.binder_stack.append([])
-    try:
-        sample = fn(pk)
-    finally:
-        ctx.binder_stack.pop()
+    if not hasattr(ctx, "guard_stack"):
+        ctx.guard_stack = []
+
+    def guarded(k):
+        # index bounds met while evaluating the element expression are collected (not branched on) ...
+        ctx.guard_stack.append([])
+        try:
+            return fn(k)
+        finally:
+            ctx.last_guards = ctx.guard_stack.pop()
+    sample = guarded(pk)
+    guards = list(getattr(ctx, "last_guards", []))
+    if guards:
+        # ... and proved once for every position of the comprehension
+        ctx.oblige(f"safe:index-in-comprehension@{node.lineno}", "safe", z3.Implies(z3.And(pk >= 0, pk < zint(seq.length)), z3.And(*guards)))
     elem = "int" if isinstance(sample, Num) and sample.is_int else "real" if isinstance(sample, Num) else \
         "bool" if isinstance(sample, Bool) else "str" if isinstance(sample, Str) else "obj"
-    return Vec(seq.length, fn, kind="list", elem=elem)
+    return Vec(seq.length, guarded, kind="list", elem=elem)
 
 
 def _listcomp_concrete(interp, node, frame, gi, fr):
